@@ -109,4 +109,6 @@ def cases4() -> List[Dict[str, Any]]:
         "def deco(*a, **k):\n    return lambda f: f\n@deco(re.compile(*ARGS))\ndef decorated(): 'doc'\n"
         "@attr.s(*OPTIONS)\nclass A:\n    x = attr.ib(*OPTIONS)\n    y = attr.ib(**KW)\n@attr.s(**KW)\nclass B:\n    pass\n"
         "@deprecated(*ARGS)\ndef old(): 'doc'\n@deprecated(**KW)\nclass Old: pass\n@deprecated(Version(*ARGS))\ndef older(): pass\n")}))
+    A(case("file-names-that-are-not-utf8", {"pk/q\udcff.py": "def f():\n    'doc'\nclass K:\n    'doc'\n", "pk/sub\udcfe/__init__.py": "x = 1\n",
+                                             "pk/sub\udcfe/m.py": "from .. import *\nclass M: pass\n", "pk/__init__.py": "'doc'\n"}))
     return out
